@@ -288,7 +288,12 @@ func replay(vdir, repo, prop, name string, o *Obligation) (bool, map[string]inte
 		ob, _ := json.Marshal(ov)
 		os.WriteFile(ovFile, ob, 0o644)
 		ctx, cancel := context.WithTimeout(context.Background(), 180*time.Second)
-		cmd := exec.CommandContext(ctx, "go", "test", "-overlay", ovFile, "-vet=off", "-timeout", "60s", "-count=1", "-run", "TestVerifReplay", "./"+pkgDir)
+		args := []string{"test", "-overlay", ovFile, "-vet=off", "-timeout", "60s", "-count=1", "-run", "TestVerifReplay"}
+		if strings.Contains(string(src), "gomonkey") {
+			args = append(args, "-gcflags=all=-l")
+		}
+		args = append(args, "./"+pkgDir)
+		cmd := exec.CommandContext(ctx, "go", args...)
 		cmd.Dir = repo
 		cmd.Env = append(os.Environ(), "GOFLAGS=-mod=mod", "GOPROXY=off", "GOSUMDB=off", "GOTOOLCHAIN=local", "VERIF_REPLAY_INPUT="+inFile)
 		out, err := cmd.CombinedOutput()
